@@ -323,7 +323,7 @@ def run(tier):
     vlib.ensure_build(asan=False)
     chk = Check(PID, tier)
     seed = chk.seed
-    nprog, nsolo, npairs = (26, 10, 36) if tier == "quick" else (500, 60, 400)
+    nprog, nsolo, npairs = (26, 10, 36) if tier == "quick" else (400, 40, 300)
     if os.environ.get('VERIF_C15_N'):      # development knob only
         nprog, nsolo, npairs = [int(x) for x in os.environ['VERIF_C15_N'].split(',')]
     chk.rule = ("case = one unit (helpers + 1..3 generic functions + call sites in the declaring module, an importing module and a module importing the importer) "
@@ -341,6 +341,10 @@ def run(tier):
         "in the layout where main imports only the middle module, generics of the middle module are instantiated with primitive and list types only",
         "both sides rejected / both sides not compilable are counted (trivial / bothfail) and never reported: they are the business of C02-C04",
         "Byte values are only moved, never computed with",
+        "programs are built at -O 0/1/2; a run-time difference at -O 2 is re-checked at -O 1 and, if it vanishes, reported with kind '... only at -O 2'",
+        "main imports decl before mitte (in the reverse order the code generator crashes on public functions of mitte whose signature mentions a Kombination of decl: plain-module defect, not judged here)",
+        "Kombinationen of the pool are declared with masculine/feminine articles (a neuter type cannot be written as a field type: 'dem Paar x' is refused by the pinned parser)",
+        "a disagreement is confirmed by rebuilding the single unit alone; if it does not reproduce it is counted inconclusive (flaky), never reported",
     ]
     controls_bad = []
     with Scratch("c15") as sc:
@@ -357,7 +361,7 @@ def run(tier):
                 res = fn(sm, mono)
                 exp = c15_golden.expected_of(vlib.REPO, res)
                 G, M = res[0].render('G'), res[0].render('M')
-                ev = evaluate(sc, 'ctl-%s-%s' % (fn.__name__, sm), G, M)
+                ev = evaluate(sc, 'ctl-%s-%s-%d' % (fn.__name__, sm, mono), G, M)
                 return job, exp, ev, G, M
 
             for job, exp, ev, G, M in vlib.pmap(control, jobs):
